@@ -21,6 +21,7 @@ RULE = (
     "  One case in ten ends in an operation whose expression uses a function that exists in one engine kind only "
     "(Engine.functions), alone or nested in/around portable functions: construction may refuse it (EngineError) "
     "but whatever it accepts has to execute. "
+    "  15 % of the cases span the SQL engine and two iteration engines (transfers, materializations, transfers into SQL used directly as chain operands): they are processed by a real Processor and executed in their final engine, twice. "
 )
 ASSUMPTIONS = [
     "SQLite 3 stands in for 'the target database'; no grammar shim is installed for this check",
